@@ -63,6 +63,50 @@ class CallbackTable:
         return r
 
 
+class _DriverHooks(LibHooks):
+    """runs a text driver up to its call of binson_parser_verify and reads the separator state it has set up"""
+
+    def stub_call(self, st, name, args, ins):
+        if name != c02m.VERIFY:
+            return None
+        lay = self.lay
+        F = lay.parser
+        cb = (st.cells('P') or {}).get(((F['cb'][0], ()), F['cb'][1]))
+        cx = (st.cells('P') or {}).get(((F['cb_context'][0], ()), F['cb_context'][1]))
+        val = None
+        if cx is not None and isinstance(cx[2], Ptr):
+            off = cx[2].off
+            if self.pstate_off:
+                off = off.add(self.pstate_off)
+            c = (st.cells(cx[2].region) or {}).get((off.key(), 1))
+            if c is not None and isinstance(c[2], Int):
+                val = st.store.const_of(c[2].a)
+        self.seen.append((getattr(cb[2], 'name', None) if cb else None, val))
+        return [(st, Int(1, Aff(0)))]
+
+
+def initial_pstate(mod, cbname, ctxkind):
+    driver = 'binson_parser_print' if ctxkind == 'print' else 'binson_parser_to_string'
+    fn = mod.functions.get(driver)
+    need(fn is not None, 'C14: %s not found' % driver)
+    hooks = _DriverHooks()
+    hooks.seen = []
+    hooks.pstate_off = 0
+    if ctxkind != 'print':
+        f = {n: (o, s) for (n, o, s) in (mod.di_struct_fields('_to_string_ctx') or [])}
+        need('pstate' in f, 'C14: struct _to_string_ctx has no field pstate')
+        hooks.pstate_off = f['pstate'][0]
+    C = Contracts(mod, hooks)
+    for (label, st, args) in C.entries(driver):
+        if label.startswith('ok-d0') and 'nulltext' not in label:
+            st.frames = [C._root_frame()]
+            C.I.call_function(st, fn, args, None)
+            break
+    vals = {v for (cb, v) in hooks.seen if cb == cbname}
+    need(len(vals) == 1 and None not in vals, 'C14: the separator state %s starts with is not one constant (%r)' % (driver, hooks.seen[:3]))
+    return vals.pop()
+
+
 def reference(tree):
     k = tree[0]
     if k == 'object':
@@ -75,7 +119,7 @@ def reference(tree):
 _G = {}
 
 
-def render(M, T, tree, md, mode, depth0):
+def render(M, T, tree, md, mode, depth0, ps0=0):
     toks = c06.tokens(tree)
     offs = []
     o = 0
@@ -87,7 +131,7 @@ def render(M, T, tree, md, mode, depth0):
     st = (0, depth0, tuple((0, 0, 0, None) for _ in range(md)))
     O = depth0
     AO = 0
-    ps = 0
+    ps = ps0
     text = ''
     for _ in range(len(toks) + 4):
         r = M.step(doc, st, mode, O, AO)
@@ -97,7 +141,7 @@ def render(M, T, tree, md, mode, depth0):
         for k in M.last_cbcalls:
             need(k is not None, 'C14: the token kind passed to the callback is not a constant')
             adepth = st2[2][max(st2[1] - 1, 0)][1]
-            outs = T.get((k, ps if ps <= 5 else 6, adepth))
+            outs = T.get((k, ('exact', ps), adepth))
             need(outs is not None, 'C14: no callback table row for token kind 0x%04x' % k)
             texts = {t for (t, n) in outs}
             nxt = {n for (t, n) in outs}
@@ -125,7 +169,7 @@ def _part(k):
                         continue
                     out['n'] += 1
                     md = max(c06._odepth(tree) + (1 if kind == 'array' else 0), 1)
-                    text, why = render(M, T, tree, md, _G['mode'], 0 if kind == 'object' else 1)
+                    text, why = render(M, T, tree, md, _G['mode'], 0 if kind == 'object' else 1, _G['ps0'])
                     ref = reference(tree)
                     if text != ref:
                         cand = (c06.show(tree), ref, text, why)
@@ -156,7 +200,8 @@ def render_clause(rep, mod, tier):
     sys.setrecursionlimit(20000)
     for (cbname, ctxkind) in ((TOSTR_CB, 'to_string'), (PRINT_CB, 'print')):
         T = CallbackTable(mod, cbname, ctxkind)
-        _G.update(M=M, T=T, bounds=bounds, jobs=jobs, mode=mode)
+        ps0 = initial_pstate(mod, cbname, ctxkind)
+        _G.update(M=M, T=T, bounds=bounds, jobs=jobs, mode=mode, ps0=ps0)
         with mp.get_context('fork').Pool(jobs) as pool:
             parts = pool.map(_part, range(jobs))
         n = 0
